@@ -9,60 +9,66 @@ Theorems about the model `Cpppo.Tnet` (`dump`, `parse` mirror `server/tnetstring
 Quantification: every value `v : TVal` (integers of any size, float tokens, booleans, null, byte
 strings of any content and length, text of any Unicode scalar values, lists and string-keyed
 dictionaries nested to any depth) with `wf v` (decidable: float token has the `str(float)` shape,
-text is made of scalar values, dictionary keys are ASCII and distinct); every following data `rest` /
-`tail`; every chunking.  Nothing is bounded.
+text is encodable by the codec `e` given as `encoding=` to both `dump` and `parse` -- utf-8, latin-1,
+ascii, utf-16 are modelled -- dictionary keys are ASCII and distinct); every following data `rest` /
+`tail`; every chunking; every set `ign` of `ignore=` separator symbols that contains no digit and every
+run of such separators between messages.  Nothing is bounded.
+
+The stream model mirrors the code REPAIRED by fixes/C20-ignore-between-blocks.patch; the code before
+the fix (`feedChunksOld`) is shown to depend on the chunking (`ignore_old_depends_on_chunking`).
 -/
 namespace Cpppo.Tnet
 
 /-! ## Serialise / parse round trip -/
 
-/-- **`parse(dump(v) + rest) == (v, rest)`**: parsing a serialised value followed by any further
+/-- **`parse(dump(v, encoding=e) + rest, encoding=e) == (v, rest)`**: parsing a serialised value followed by any further
 data returns exactly that value (same constructors = same Python types), and exactly the further
 data; for any nesting depth, any container size, any payload bytes. -/
-theorem parse_dump (v : TVal) (h : wf v = true) (rest : Bytes) :
-    parse (dump v ++ rest) = some (v, rest) := by
+theorem parse_dump (e : Enc) (v : TVal) (h : wf e v = true) (rest : Bytes) :
+    parse e (dump e v ++ rest) = some (v, rest) := by
   unfold parse
-  apply parseF_dump v _ rest h
-  have := size_lt_dump v
+  apply parseF_dump e v _ rest h
+  have := size_lt_dump e v
   simp only [List.length_append]; omega
 
 /-- **`parse(dump(v)) == (v, b'')`: the whole string is consumed.** -/
-theorem parse_dump_whole (v : TVal) (h : wf v = true) : parse (dump v) = some (v, []) := by
-  simpa using parse_dump v h []
+theorem parse_dump_whole (e : Enc) (v : TVal) (h : wf e v = true) : parse e (dump e v) = some (v, []) := by
+  simpa using parse_dump e v h []
 
 /-- `dump` is injective on well-formed values (an immediate consequence, stated because it is what
 "equal value of the same types" needs: two different values never share a serialisation). -/
-theorem dump_injective (v w : TVal) (hv : wf v = true) (hw : wf w = true) (h : dump v = dump w) :
+theorem dump_injective (e : Enc) (v w : TVal) (hv : wf e v = true) (hw : wf e w = true)
+    (h : dump e v = dump e w) :
     v = w := by
-  have h1 := parse_dump_whole v hv
-  have h2 := parse_dump_whole w hw
+  have h1 := parse_dump_whole e v hv
+  have h2 := parse_dump_whole e w hw
   rw [h, h2] at h1
   simpa using h1.symm
 
 mutual
-private theorem encodable_of_wf : ∀ v : TVal, wf v = true → encodable v = true
+private theorem encodable_of_wf (e : Enc) : ∀ v : TVal, wf e v = true → encodable e v = true
   | .int _, _ | .float _, _ | .bool _, _ | .null, _ | .bytes _, _ => rfl
   | .text _, h => by simpa [wf, encodable] using h
-  | .list vs, h => by simp only [wf] at h; simpa [encodable] using encodableList_of_wf vs h
-  | .dict kvs, h => by simp only [wf] at h; simpa [encodable] using encodableDict_of_wf kvs h
-private theorem encodableList_of_wf : ∀ vs : TList, wfList vs = true → encodableList vs = true
+  | .list vs, h => by simp only [wf] at h; simpa [encodable] using encodableList_of_wf e vs h
+  | .dict kvs, h => by simp only [wf] at h; simpa [encodable] using encodableDict_of_wf e kvs h
+private theorem encodableList_of_wf (e : Enc) : ∀ vs : TList, wfList e vs = true → encodableList e vs = true
   | .nil, _ => rfl
   | .cons v vs, h => by
     simp only [wfList, Bool.and_eq_true] at h
-    simp [encodableList, encodable_of_wf v h.1, encodableList_of_wf vs h.2]
-private theorem encodableDict_of_wf : ∀ kvs : TDict, wfDict kvs = true → encodableDict kvs = true
+    simp [encodableList, encodable_of_wf e v h.1, encodableList_of_wf e vs h.2]
+private theorem encodableDict_of_wf (e : Enc) : ∀ kvs : TDict, wfDict e kvs = true → encodableDict e kvs = true
   | .nil, _ => rfl
   | .cons k v kvs, h => by
     simp only [wfDict, Bool.and_eq_true] at h
     obtain ⟨⟨⟨hk, _⟩, hv⟩, hd⟩ := h
     simp only [encodableDict, Bool.and_eq_true]
-    exact ⟨⟨hk, encodable_of_wf v hv⟩, encodableDict_of_wf kvs hd⟩
+    exact ⟨⟨hk, encodable_of_wf e v hv⟩, encodableDict_of_wf e kvs hd⟩
 end
 
 /-- **`dump` does not raise on a well-formed value** (the model's `dump?` is `none` exactly where the
-code raises UnicodeEncodeError: surrogate code points in text, non-ASCII dictionary keys). -/
-theorem dump_defined (v : TVal) (h : wf v = true) : dump? v = some (dump v) := by
-  simp [dump?, encodable_of_wf v h]
+code raises UnicodeEncodeError: text the codec cannot encode, non-ASCII dictionary keys). -/
+theorem dump_defined (e : Enc) (v : TVal) (h : wf e v = true) : dump? e v = some (dump e v) := by
+  simp [dump?, encodable_of_wf e v h]
 
 /-- **Only the length prefix delimits a payload**: whatever bytes the payload holds (digits, colons,
 type tags, a complete tnetstring, ...), `parse_payload` of a framed payload followed by anything
@@ -72,18 +78,22 @@ theorem payload_delimited_by_length (p : Bytes) (t : Nat) (rest : Bytes) :
   parsePayload_frame p t rest
 
 /-- every serialisation is such a frame: decimal length of the payload, `:`, payload, type byte -/
-theorem dump_is_frame (v : TVal) : ∃ p t, dump v = frame p t ∧ isType t = true := by
+theorem dump_is_frame (e : Enc) (v : TVal) : ∃ p t, dump e v = frame p t ∧ isType t = true := by
   cases v with
   | int i => exact ⟨_, 35, rfl, by decide⟩
   | float tok => exact ⟨_, 94, rfl, by decide⟩
   | bool b => exact ⟨_, 33, rfl, by decide⟩
-  | null => exact ⟨[], 126, by decide, by decide⟩
+  | null => exact ⟨[], 126, by simp [dump, frame, natDec, digitsLE], by decide⟩
   | bytes bs => exact ⟨_, 44, rfl, by decide⟩
   | text cps => exact ⟨_, 36, rfl, by decide⟩
-  | list vs => exact ⟨dumpList vs, 93, by simp [dump], by decide⟩
-  | dict kvs => exact ⟨dumpDict kvs, 125, by simp [dump], by decide⟩
+  | list vs => exact ⟨dumpList e vs, 93, by simp [dump], by decide⟩
+  | dict kvs => exact ⟨dumpDict e kvs, 125, by simp [dump], by decide⟩
 
-/-! ## The streaming parser -/
+/-! ## The streaming parser
+
+`ign` is the `ignore=` option of `tnet_from`: symbols skipped between messages (`[]` = none).  The
+machine decodes `$` payloads as utf-8 whatever codec `dump` was given, so the stream theorems are
+about `dump .utf8` and `parse .utf8`. -/
 
 /-- the types `tnet_parser.process` converts -/
 def streamOk : TVal → Bool
@@ -91,23 +101,24 @@ def streamOk : TVal → Bool
   | _ => false
 
 /-- **Chunk independence**: feeding the blocks one by one is feeding their concatenation; hence two
-chunkings of the same bytes give the same messages, the same `sent` counts and the same state. -/
-theorem stream_chunking (r : Run) (chunks : List Bytes) :
-    feedChunks r chunks = feed r chunks.flatten :=
-  feedChunks_flatten r chunks
+chunkings of the same bytes give the same messages, the same `sent` counts and the same state --
+with or without `ignore=` separators, wherever the block boundaries fall. -/
+theorem stream_chunking (ign : Bytes) (r : Run) (chunks : List Bytes) :
+    feedChunks ign r chunks = feed ign r chunks.flatten :=
+  feedChunks_flatten ign r chunks
 
-theorem stream_chunking_irrelevant (r : Run) (c₁ c₂ : List Bytes) (h : c₁.flatten = c₂.flatten) :
-    feedChunks r c₁ = feedChunks r c₂ := by
+theorem stream_chunking_irrelevant (ign : Bytes) (r : Run) (c₁ c₂ : List Bytes)
+    (h : c₁.flatten = c₂.flatten) : feedChunks ign r c₁ = feedChunks ign r c₂ := by
   rw [stream_chunking, stream_chunking, h]
 
-private theorem convert_dump (v : TVal) (h : wf v = true) (hs : streamOk v = true) :
-    ∃ p t, dump v = frame p t ∧ isType t = true ∧ convert t p = some v := by
+private theorem convert_dump (v : TVal) (h : wf .utf8 v = true) (hs : streamOk v = true) :
+    ∃ p t, dump .utf8 v = frame p t ∧ isType t = true ∧ convert t p = some v := by
   cases v with
   | int i => exact ⟨_, 35, rfl, by decide, by simp [convert, pyInt_intDec]⟩
   | bytes bs => exact ⟨_, 44, rfl, by decide, by simp [convert]⟩
   | text cps =>
-    simp only [wf] at h
-    exact ⟨_, 36, rfl, by decide, by simp [convert, utf8Dec_enc cps h]⟩
+    simp only [wf, encOk] at h
+    exact ⟨_, 36, rfl, by decide, by simp [convert, encText, utf8Dec_enc cps h]⟩
   | null => exact ⟨[], 126, by decide, by decide, by simp [convert]⟩
   | float _ | bool _ | list _ | dict _ => simp [streamOk] at hs
 
@@ -115,96 +126,146 @@ private theorem convert_dump (v : TVal) (h : wf v = true) (hs : streamOk v = tru
 delivered, `s` symbols already consumed), the machine fed `dump v ++ tail` delivers exactly the
 payload `v` -- the value `parse` returns (`parse_dump`) -- records `sent = s + len(dump v)`, i.e. it
 has consumed exactly the message, and continues on `tail` from a message boundary. -/
-theorem stream_agrees (v : TVal) (h : wf v = true) (hs : streamOk v = true)
-    (out : List (TVal × Nat)) (s : Nat) (tail : Bytes) :
-    feed ⟨.start, out, s⟩ (dump v ++ tail)
-      = feed ⟨.start, out ++ [(v, s + (dump v).length)], s + (dump v).length⟩ tail
-    ∧ parse (dump v ++ tail) = some (v, tail) := by
+theorem stream_agrees (ign : Bytes) (hi : IgnOk ign) (v : TVal) (h : wf .utf8 v = true)
+    (hs : streamOk v = true) (out : List (TVal × Nat)) (s : Nat) (tail : Bytes) :
+    feed ign ⟨.start, out, s⟩ (dump .utf8 v ++ tail)
+      = feed ign ⟨.start, out ++ [(v, s + (dump .utf8 v).length)], s + (dump .utf8 v).length⟩ tail
+    ∧ parse .utf8 (dump .utf8 v ++ tail) = some (v, tail) := by
   obtain ⟨p, t, hd, ht, hc⟩ := convert_dump v h hs
-  refine ⟨?_, parse_dump v h tail⟩
+  refine ⟨?_, parse_dump .utf8 v h tail⟩
   rw [hd]
-  exact feed_frame_ok p t v ht hc out s tail
+  exact feed_frame_ok ign hi p t v ht hc out s tail
 
-/-- the messages and `sent` values expected from a sequence of serialised values starting at `s` -/
-def expected (s : Nat) : List TVal → List (TVal × Nat)
+/-- **Separators between messages** (`ignore=`): a run of ignorable symbols at a message boundary is
+consumed, delivers nothing and leaves the machine at a message boundary -- however long the run is
+and wherever in it the block boundaries fall (by `stream_chunking`). -/
+theorem stream_separators (ign : Bytes) (seps : Bytes) (h : ∀ b ∈ seps, ign.contains b = true)
+    (out : List (TVal × Nat)) (s : Nat) (tail : Bytes) :
+    feed ign ⟨.start, out, s⟩ (seps ++ tail) = feed ign ⟨.start, out, s + seps.length⟩ tail := by
+  rw [feed_append, feed_start_seps ign seps h]
+
+/-- the stream `seps₁ dump(v₁) seps₂ dump(v₂) …` -/
+def dumpAll : List (Bytes × TVal) → Bytes
   | [] => []
-  | v :: vs => (v, s + (dump v).length) :: expected (s + (dump v).length) vs
+  | (seps, v) :: vs => seps ++ (dump .utf8 v ++ dumpAll vs)
 
-def dumpAll : List TVal → Bytes
+/-- the messages and `sent` values expected from it, starting at `s` -/
+def expected (s : Nat) : List (Bytes × TVal) → List (TVal × Nat)
   | [] => []
-  | v :: vs => dump v ++ dumpAll vs
+  | (seps, v) :: vs =>
+    (v, s + seps.length + (dump .utf8 v).length) :: expected (s + seps.length + (dump .utf8 v).length) vs
 
-/-- **A stream of messages in any chunking, followed by any data**: the machine delivers each
-payload in order, each with `sent` exactly at the end of that message, and then runs on the tail from
-a message boundary. -/
-theorem stream_messages (vs : List TVal) (h : ∀ v ∈ vs, wf v = true ∧ streamOk v = true)
+/-- **A stream of messages, each preceded by any run of `ignore=` separators, in any chunking,
+followed by any data**: the machine delivers each payload in order, each with `sent` exactly at the
+end of that message, and then runs on the tail from a message boundary. -/
+theorem stream_messages (ign : Bytes) (hi : IgnOk ign) (vs : List (Bytes × TVal))
+    (h : ∀ sv ∈ vs, (∀ b ∈ sv.1, ign.contains b = true) ∧ wf .utf8 sv.2 = true ∧ streamOk sv.2 = true)
     (tail : Bytes) (chunks : List Bytes) (hc : chunks.flatten = dumpAll vs ++ tail)
     (out : List (TVal × Nat)) (s : Nat) :
-    feedChunks ⟨.start, out, s⟩ chunks
-      = feed ⟨.start, out ++ expected s vs, s + (dumpAll vs).length⟩ tail := by
+    feedChunks ign ⟨.start, out, s⟩ chunks
+      = feed ign ⟨.start, out ++ expected s vs, s + (dumpAll vs).length⟩ tail := by
   rw [stream_chunking, hc]
   clear hc
   induction vs generalizing out s with
   | nil => simp [dumpAll, expected]
-  | cons v vs ih =>
-    have hv := h v (by simp)
+  | cons sv vs ih =>
+    obtain ⟨seps, v⟩ := sv
+    have hv := h (seps, v) (by simp)
     simp only [dumpAll, List.append_assoc]
-    rw [(stream_agrees v hv.1 hv.2 out s _).1, ih (fun w hw => h w (by simp [hw]))]
+    rw [stream_separators ign seps hv.1, (stream_agrees ign hi v hv.2.1 hv.2.2 out _ _).1,
+      ih (fun w hw => h w (by simp [hw]))]
     simp only [expected, List.append_assoc, List.singleton_append, List.length_append, Nat.add_assoc]
 
 /-- whatever follows, the messages delivered so far stay delivered, unchanged and in order -/
-theorem stream_delivered_stable (r : Run) (bs : Bytes) : ∃ more, (feed r bs).out = r.out ++ more :=
-  feed_out_prefix bs r
+theorem stream_delivered_stable (ign : Bytes) (r : Run) (bs : Bytes) :
+    ∃ more, (feed ign r bs).out = r.out ++ more :=
+  feed_out_prefix ign bs r
 
-/-- **Corollary (the observable statement)**: for any chunking of `dump v₁ ++ … ++ dump vₙ ++ tail`
-the list of `(payload, sent)` pairs yielded by a fresh machine starts with exactly
-`(vᵢ, len(dump v₁ … dump vᵢ))`. -/
-theorem stream_yields (vs : List TVal) (h : ∀ v ∈ vs, wf v = true ∧ streamOk v = true)
+/-- **Corollary (the observable statement)**: for any chunking of
+`seps₁ dump v₁ … sepsₙ dump vₙ tail` the list of `(payload, sent)` pairs yielded by a fresh machine
+starts with exactly `(vᵢ, end position of message i)`. -/
+theorem stream_yields (ign : Bytes) (hi : IgnOk ign) (vs : List (Bytes × TVal))
+    (h : ∀ sv ∈ vs, (∀ b ∈ sv.1, ign.contains b = true) ∧ wf .utf8 sv.2 = true ∧ streamOk sv.2 = true)
     (tail : Bytes) (chunks : List Bytes) (hc : chunks.flatten = dumpAll vs ++ tail) :
-    ∃ more, (feedChunks {} chunks).out = expected 0 vs ++ more := by
-  have := stream_messages vs h tail chunks hc [] 0
+    ∃ more, (feedChunks ign {} chunks).out = expected 0 vs ++ more := by
+  have := stream_messages ign hi vs h tail chunks hc [] 0
   have e : ({} : Run) = ⟨.start, [], 0⟩ := rfl
   rw [e, this]
-  obtain ⟨more, hm⟩ := stream_delivered_stable ⟨.start, [] ++ expected 0 vs, 0 + (dumpAll vs).length⟩ tail
+  obtain ⟨more, hm⟩ :=
+    stream_delivered_stable ign ⟨.start, [] ++ expected 0 vs, 0 + (dumpAll vs).length⟩ tail
   exact ⟨more, by simpa using hm⟩
 
 /-- **The types the machine does not convert** (`!` bool, `^` float, `]` list, `}` dict): the frame is
 consumed, no message is delivered and the run fails (AssertionError in `tnet_parser.process`). -/
-theorem stream_unsupported (v : TVal) (hs : streamOk v = false) (out : List (TVal × Nat)) (s : Nat) :
-    (feed ⟨.start, out, s⟩ (dump v)).st = .failed ∧ (feed ⟨.start, out, s⟩ (dump v)).out = out := by
+theorem stream_unsupported (ign : Bytes) (hi : IgnOk ign) (v : TVal) (hs : streamOk v = false)
+    (out : List (TVal × Nat)) (s : Nat) :
+    (feed ign ⟨.start, out, s⟩ (dump .utf8 v)).st = .failed
+      ∧ (feed ign ⟨.start, out, s⟩ (dump .utf8 v)).out = out := by
   cases v with
-  | float tok => exact feed_frame_bad tok 94 (Or.inr (by simp [convert])) out s
-  | bool b => exact feed_frame_bad (boolTok b) 33 (Or.inr (by simp [convert])) out s
-  | list vs => simpa [dump] using feed_frame_bad (dumpList vs) 93 (Or.inr (by simp [convert])) out s
-  | dict kvs => simpa [dump] using feed_frame_bad (dumpDict kvs) 125 (Or.inr (by simp [convert])) out s
+  | float tok => exact feed_frame_bad ign hi tok 94 (Or.inr (by simp [convert])) out s
+  | bool b => exact feed_frame_bad ign hi (boolTok b) 33 (Or.inr (by simp [convert])) out s
+  | list vs =>
+    simpa [dump] using feed_frame_bad ign hi (dumpList .utf8 vs) 93 (Or.inr (by simp [convert])) out s
+  | dict kvs =>
+    simpa [dump] using feed_frame_bad ign hi (dumpDict .utf8 kvs) 125 (Or.inr (by simp [convert])) out s
   | int _ | bytes _ | text _ | null => simp [streamOk] at hs
 
-/-- **Agreement with `parse` on every input, not only on `dump` output.**  `scan1 s data` is the
-machine's run from a message boundary up to its first message (`scan1_feed` below is that fact).
-Whenever the machine delivers a first message `(v, m)` from `data`, `parse data` returns the same
-value `v` and the same remaining input, and `m - s` is exactly the number of bytes `parse` consumed;
-when it delivers none (input incomplete, or a failure), nothing is added to the delivered list.
+/-- **Agreement with `parse` on every input, not only on `dump` output.**  `scan1 ign s data` is the
+machine's run from a message boundary up to its first message (`scan1_feed` is that fact).
+Whenever the machine delivers a first message `(v, m)` from `data`, then `data` is a run of
+`ignore=` separators followed by a `body` on which `parse` returns the same value `v` and the same
+remaining input, and `m - s` is exactly the separators plus the bytes `parse` consumed; when it
+delivers none (input incomplete, or a failure), nothing is added to the delivered list.
 (The converse fails by design: `parse` also accepts what Python's `int()` accepts as a length --
 sign, spaces, underscores -- and the types `! ^ ] }`, see the examples.) -/
-theorem stream_first_message_is_parse (data : Bytes) (out : List (TVal × Nat)) (s : Nat) :
-    match scan1 s data with
+theorem stream_first_message_is_parse (ign : Bytes) (data : Bytes) (out : List (TVal × Nat)) (s : Nat) :
+    match scan1 ign s data with
     | some (v, m, rest) =>
-        feed ⟨.start, out, s⟩ data = feed ⟨.start, out ++ [(v, m)], m⟩ rest
-        ∧ parse data = some (v, rest) ∧ m + rest.length = s + data.length
-    | none => (feed ⟨.start, out, s⟩ data).out = out := by
-  have h1 := scan1_feed data s out
-  cases h : scan1 s data with
+        feed ign ⟨.start, out, s⟩ data = feed ign ⟨.start, out ++ [(v, m)], m⟩ rest
+        ∧ (∃ seps body, data = seps ++ body ∧ (∀ b ∈ seps, ign.contains b = true)
+            ∧ parse .utf8 body = some (v, rest))
+        ∧ m + rest.length = s + data.length
+    | none => (feed ign ⟨.start, out, s⟩ data).out = out := by
+  have h1 := scan1_feed ign data s out
+  cases h : scan1 ign s data with
   | none => simpa [h] using h1
   | some r =>
     obtain ⟨v, m, rest⟩ := r
     simp only [h] at h1
-    exact ⟨h1, scan1_parse data s v m rest h⟩
+    obtain ⟨seps, body, hd, hs, hp, hm⟩ := scan1_parse ign data s v m rest h
+    exact ⟨h1, ⟨seps, body, hd, hs, hp⟩, hm⟩
 
-example : scan1 0 [48, 51, 58, 97, 98, 99, 44, 57] = some (.bytes [97, 98, 99], 7, [57]) := by
-  decide +kernel                                                                -- b'03:abc,9'
-example : scan1 0 [51, 58, 97, 98] = none := by decide +kernel                   -- incomplete
+/-! ### The code before fixes/C20-ignore-between-blocks.patch depends on the chunking
+
+With `ignore=b'\n'` the stream `1:a,\n1:b,` delivered in one block yields `a` and `b`; the same bytes
+delivered as `1:a,` then `\n1:b,` yield `a` and then fail (the separator reaches SIZE: NonTerminal).
+This is the replay used against the implementation. -/
+theorem ignore_old_depends_on_chunking :
+    [[49, 58, 97, 44, 10, 49, 58, 98, 44]].flatten = [[49, 58, 97, 44], [10, 49, 58, 98, 44]].flatten
+    ∧ (feedChunksOld [10] {} [[49, 58, 97, 44, 10, 49, 58, 98, 44]]).run
+        = ⟨.start, [(.bytes [97], 4), (.bytes [98], 9)], 9⟩
+    ∧ (feedChunksOld [10] {} [[49, 58, 97, 44], [10, 49, 58, 98, 44]]).run
+        = ⟨.failed, [(.bytes [97], 4)], 4⟩
+    ∧ feedChunks [10] {} [[49, 58, 97, 44], [10, 49, 58, 98, 44]]
+        = feedChunks [10] {} [[49, 58, 97, 44, 10, 49, 58, 98, 44]] := by
+  decide +kernel
+
+/-- the same code never skipped the symbol 0 (`source.peek()` is falsy), and never skipped a
+separator in front of the very first message of a connection -/
+theorem ignore_old_nul_and_leading :
+    (feedChunksOld [0] {} [[49, 58, 97, 44, 0, 49, 58, 98, 44]]).run.st = .failed
+    ∧ (feedChunksOld [10] {} [[10, 49, 58, 97, 44]]).run.st = .failed
+    ∧ (feedChunks [0] {} [[49, 58, 97, 44, 0, 49, 58, 98, 44]]).out = [(.bytes [97], 4), (.bytes [98], 9)]
+    ∧ (feedChunks [10] {} [[10, 49, 58, 97, 44]]).out = [(.bytes [97], 5)] := by
+  decide +kernel
 
 /-! ## Non-vacuity and witnesses (`decide` on samples: tests of the definitions, not theorems) -/
+
+example : scan1 [] 0 [48, 51, 58, 97, 98, 99, 44, 57] = some (.bytes [97, 98, 99], 7, [57]) := by
+  decide +kernel                                                                -- b'03:abc,9'
+example : scan1 [] 0 [51, 58, 97, 98] = none := by decide +kernel                -- incomplete
+example : scan1 [13, 10] 0 [13, 10, 10, 49, 58, 97, 44, 13] = some (.bytes [97], 7, [13]) := by
+  decide +kernel                                                                -- b'\r\n\n1:a,\r'
 
 /-- a nested value: `{"a:1": [-5, "é€😀", b"3:x,", 1.5e-07, True, None], "": {}}` -/
 def sample : TVal :=
@@ -213,42 +274,63 @@ def sample : TVal :=
         (.cons (.float [49, 46, 53, 101, 45, 48, 55]) (.cons (.bool true) (.cons .null .nil)))))))
     (.cons [] (.dict .nil) .nil))
 
-example : wf sample = true := by decide
-example : parse (dump sample ++ [49, 58]) = some (sample, [49, 58]) := by decide +kernel
-example : dump? sample = some (dump sample) := by decide +kernel
+example : wf .utf8 sample = true := by decide
+example : parse .utf8 (dump .utf8 sample ++ [49, 58]) = some (sample, [49, 58]) := by decide +kernel
+example : dump? .utf8 sample = some (dump .utf8 sample) := by decide +kernel
+/-- the same under utf-16 (every text carries its BOM) ... -/
+example : wf .utf16 sample = true ∧ parse .utf16 (dump .utf16 sample ++ [49]) = some (sample, [49]) := by
+  decide +kernel
+/-- ... and non-ASCII text below a dictionary below a list under latin-1 -/
+def sampleLatin : TVal := .list (.cons (.dict (.cons [107] (.text [99, 97, 102, 233]) .nil)) .nil)
+example : wf .latin1 sampleLatin = true
+    ∧ parse .latin1 (dump .latin1 sampleLatin) = some (sampleLatin, [])
+    ∧ dump .latin1 sampleLatin ≠ dump .utf8 sampleLatin := by decide +kernel
+/-- the codec must be able to encode the text: `'€'.encode('latin-1')` raises -/
+example : dump? .latin1 (.text [8364]) = none ∧ dump? .ascii (.text [233]) = none := by decide
 
 /-- payload that is itself a tnetstring followed by digits and a colon -/
-example : parse (dump (.bytes [51, 58, 97, 98, 99, 44, 49, 50, 58]) ++ [55]) =
+example : parse .utf8 (dump .utf8 (.bytes [51, 58, 97, 98, 99, 44, 49, 50, 58]) ++ [55]) =
     some (.bytes [51, 58, 97, 98, 99, 44, 49, 50, 58], [55]) := by decide +kernel
 
 /-- the stream hypotheses are satisfiable; three messages split inside a length prefix, inside a
 multi-byte character and before a type byte, followed by the start of a further message -/
-example : feedChunks {} [[49], [58, 55, 35, 50, 58, 195], [169], [36, 48, 58], [126, 49, 50, 58, 97]]
+example : feedChunks [] {} [[49], [58, 55, 35, 50, 58, 195], [169], [36, 48, 58], [126, 49, 50, 58, 97]]
     = ⟨.data 11 [97], [(.int 7, 4), (.text [233], 9), (.null, 12)], 16⟩ := by decide +kernel
-example : dumpAll [.int 7, .text [233], .null] ++ [49, 50, 58, 97]
+example : dumpAll [([], .int 7), ([], .text [233]), ([], .null)] ++ [49, 50, 58, 97]
     = [[49], [58, 55, 35, 50, 58, 195], [169], [36, 48, 58], [126, 49, 50, 58, 97]].flatten := by
   decide +kernel
+example : ∀ sv ∈ [(([] : Bytes), TVal.int 7), ([], .text [233]), ([], .null)],
+    (∀ b ∈ sv.1, ([] : Bytes).contains b = true) ∧ wf .utf8 sv.2 = true ∧ streamOk sv.2 = true := by decide
 
-example : ∀ v ∈ [TVal.int 7, .text [233], .null], wf v = true ∧ streamOk v = true := by decide
+/-- with `ignore=b'\r\n'`: CR LF after the first message, a blank line before the third, blocks cut
+between CR and LF and in front of a separator -/
+example : IgnOk [13, 10] := by decide
+example : feedChunks [13, 10] {} [[49, 58, 97, 44, 13], [10, 49, 58, 98, 44], [10, 10, 48, 58, 126]]
+    = ⟨.start, [(.bytes [97], 4), (.bytes [98], 10), (.null, 15)], 15⟩ := by decide +kernel
+example : dumpAll [([], .bytes [97]), ([13, 10], .bytes [98]), ([10, 10], .null)]
+    = [[49, 58, 97, 44, 13], [10, 49, 58, 98, 44], [10, 10, 48, 58, 126]].flatten := by decide +kernel
+/-- `IgnOk` is needed: an ignorable digit eats the length prefix -/
+example : (feed [49] {} [49, 58, 97, 44]).st = .failed := by decide +kernel
 
 /-- a tail beginning with a digit is not swallowed by the greedy SIZE of the previous message -/
-example : (feed {} (dump (.bytes [120]) ++ [53])).out = [(.bytes [120], 4)] := by decide +kernel
+example : (feed [] {} (dump .utf8 (.bytes [120]) ++ [53])).out = [(.bytes [120], 4)] := by decide +kernel
 
 /-- the hypotheses of `parse_dump` are needed: a repeated key cannot come back twice ... -/
-example : parse (dump (.dict (.cons [97] (.int 1) (.cons [97] (.int 2) .nil))))
+example : parse .utf8 (dump .utf8 (.dict (.cons [97] (.int 1) (.cons [97] (.int 2) .nil))))
     = some (.dict (.cons [97] (.int 2) .nil), []) := by decide +kernel
 /-- ... a surrogate code point is not encodable (the code raises), ... -/
-example : dump? (.text [0xD800]) = none := by decide
+example : dump? .utf8 (.text [0xD800]) = none := by decide
 /-- ... and neither is a non-ASCII dictionary key. -/
-example : dump? (.dict (.cons [233] .null .nil)) = none := by decide
+example : dump? .utf8 (.dict (.cons [233] .null .nil)) = none := by decide
 
 /-- mirrored quirks of `parse` on input that `dump` never produces -/
-example : parse [48, 51, 58, 97, 98, 99, 44] = some (.bytes [97, 98, 99], []) := by decide +kernel   -- b'03:abc,'
-example : parse [32, 43, 51, 32, 58, 97, 98, 99, 44] = some (.bytes [97, 98, 99], []) := by decide +kernel -- b' +3 :abc,'
-example : parse [53, 58, 102, 97, 108, 115, 120, 33] = some (.bool false, []) := by decide +kernel   -- b'5:falsx!'
-example : parse [45, 49, 58, 97, 44] = none := by decide +kernel                                    -- b'-1:a,'
-example : parse [50, 58, 237, 160, 36] = none := by decide +kernel            -- truncated/surrogate UTF-8
+example : parse .utf8 [48, 51, 58, 97, 98, 99, 44] = some (.bytes [97, 98, 99], []) := by decide +kernel   -- b'03:abc,'
+example : parse .utf8 [32, 43, 51, 32, 58, 97, 98, 99, 44] = some (.bytes [97, 98, 99], []) := by decide +kernel -- b' +3 :abc,'
+example : parse .utf8 [53, 58, 102, 97, 108, 115, 120, 33] = some (.bool false, []) := by decide +kernel   -- b'5:falsx!'
+example : parse .utf8 [45, 49, 58, 97, 44] = none := by decide +kernel                                    -- b'-1:a,'
+example : parse .utf8 [50, 58, 237, 160, 36] = none := by decide +kernel            -- truncated/surrogate UTF-8
+example : parse .utf16 [51, 58, 255, 254, 97, 36] = none := by decide +kernel       -- odd utf-16 length
 /-- the machine is stricter than `parse` about the length prefix: digits only -/
-example : (feed {} [32, 51, 58, 97, 98, 99, 44]).st = .failed := by decide +kernel
+example : (feed [] {} [32, 51, 58, 97, 98, 99, 44]).st = .failed := by decide +kernel
 
 end Cpppo.Tnet
